@@ -25,17 +25,28 @@ def fnum(v):
 
 class Gen:
     def __init__(self, rng):
-        self.rng = rng; self.nv = 0
+        self.rng = rng; self.nv = 0; self.late = False
 
     def fresh(self, p):
         self.nv += 1; return '%s%d' % (p, self.nv)
 
-    def body(self, depth, vars_):
+    def absshapes(self, text):
+        rng = self.rng
+        return [('shape', 'rect', [('xy', '%d %d' % (rng.range(20, 90), rng.range(20, 90))), ('wh', rng.choice(['2', '3 1'])), ('text', text)])
+                for _ in range(rng.range(1, 2))]
+
+    def body(self, depth, vars_, top=False):
         """returns list of AST nodes; vars_: names of numeric variables in scope"""
         rng = self.rng
         out = []
         for _ in range(rng.range(1, 3)):
-            k = rng.below(12)
+            k = rng.below(13)
+            if k == 12:
+                # a list of strings, blank items included: every item gets its pass, the index counts all of them
+                v = self.fresh('s'); q = self.fresh('q') if rng.chance(0.6) else None
+                items = [rng.choice(['a', '', ' ', 'b c', 'z']) for _ in range(rng.range(1, 4))]
+                out.append(('forstr', v, q, items, self.absshapes('[$%s%s]' % (v, ':$' + q if q else ''))))
+                continue
             if k < 5 or depth <= 0:
                 out.append(self.shape(vars_))
             elif k < 6:
@@ -111,6 +122,11 @@ def render(ast):
             out.append('<if test="%s">%s</if>' % (test_src(n[1]), render(n[2])))
         elif t == 'g':
             out.append('<g>%s</g>' % render(n[1]))
+        elif t == 'forstr':
+            _, v, q, items, body = n
+            out.append('<for data="%s" var="%s"%s>%s</for>' % (', '.join("'%s'" % it for it in items), v, ' idx-var="%s"' % q if q else '', render(body)))
+        elif t == 'iffwd':
+            out.append('<if test="%s(#late~w, %d)">%s</if>' % (n[1], n[2], render(n[3])))
     return ''.join(out)
 
 
@@ -170,6 +186,15 @@ def unroll(ast, env):
                 ok = {'lt': a < c, 'le': a <= c, 'gt': a > c, 'ge': a >= c, 'eq': a == c, 'ne': a != c}[tt[1]]
             if ok:
                 out.append(unroll(n[2], env))
+        elif t == 'forstr':
+            _, v, q, items, body = n
+            for k, it in enumerate(items):
+                out.append('<var %s="%s"%s/>' % (v, it, ' %s="%d"' % (q, k) if q else ''))
+                out.append(unroll(body, env))
+        elif t == 'iffwd':
+            w = 7; c = n[2]
+            if {'gt': w > c, 'lt': w < c, 'ge': w >= c, 'ne': w != c}[n[1]]:
+                out.append(unroll(n[3], env))
         elif t == 'g':
             sub = dict(env)
             out.append('<g>%s</g>' % unroll(n[1], sub))
@@ -194,7 +219,7 @@ def stream(out):
 
 
 def count_passes(ast):
-    return sum(1 for n in ast if n[0] in ('loop', 'while', 'until', 'for', 'if'))
+    return sum(1 for n in ast if n[0] in ('loop', 'while', 'until', 'for', 'if', 'forstr', 'iffwd'))
 
 
 def run(ctx):
@@ -204,10 +229,16 @@ def run(ctx):
     cases = []; pairs = []
     for i in range(n):
         g = Gen(rng.fork('p%d' % i))
-        ast = g.body(rng.range(1, 3), [])
+        ast = g.body(rng.range(1, 3), [], top=True)
+        if rng.chance(0.25):
+            # a test that can only be evaluated once an element further down is known: still rendered iff it is non-zero. Last in
+            # the program, because what follows a deferred element sees a different previous element ('^'), which is not this property
+            g.late = True
+            ast.append(('iffwd', rng.choice(['gt', 'lt', 'ge', 'ne']), rng.choice([3, 5, 6, 7, 9]), g.absshapes('late')))
         head = '<rect id="o" xy="0 0" wh="2"/>'
-        p = '<svg>%s%s</svg>' % (head, render(ast))
-        u = '<svg>%s%s</svg>' % (head, unroll(ast, {}))
+        tail = '<rect id="late" xy="300 300" wh="7 2"/>' if g.late else ''
+        p = '<svg>%s%s%s</svg>' % (head, render(ast), tail)
+        u = '<svg>%s%s%s</svg>' % (head, unroll(ast, {}), tail)
         cases.append(doc_case('p%d' % i, p, {'add_auto_styles': False}, {'doc': p}))
         cases.append(doc_case('u%d' % i, u, {'add_auto_styles': False}, {'doc': u}))
         pairs.append((i, p, u, ast))
